@@ -534,12 +534,23 @@ static VHOLD: AtomicBool = AtomicBool::new(false);
 /// Virtual clock may not pass this limit (ns); `i64::MAX` = unlimited.
 static VLIMIT_NS: AtomicI64 = AtomicI64::new(i64::MAX);
 static BG_THREADS_SEEN: AtomicUsize = AtomicUsize::new(0);
+/// Number of background blocking operations (merge / sync) known to be in flight: virtual time
+/// does not jump while one is running, so the stamps of its system calls are exact.
+static VBUSY: AtomicI64 = AtomicI64::new(0);
+
+pub fn vtime_busy(delta: i64) {
+    let v = VBUSY.fetch_add(delta, Ordering::SeqCst) + delta;
+    if v < 0 {
+        VBUSY.store(0, Ordering::SeqCst);
+    }
+}
 
 pub fn vtime_enable(on: bool) {
     VTIME_ENABLED.store(on, Ordering::SeqCst);
     VOFF_NS.store(0, Ordering::SeqCst);
     VHOLD.store(false, Ordering::SeqCst);
     VLIMIT_NS.store(i64::MAX, Ordering::SeqCst);
+    VBUSY.store(0, Ordering::SeqCst);
 }
 pub fn vnow_ms() -> i64 {
     VOFF_NS.load(Ordering::SeqCst) / 1_000_000
@@ -623,7 +634,7 @@ pub unsafe extern "C" fn epoll_wait(ep: c_int, evs: *mut libc::epoll_event, max:
         if r != 0 {
             return r;
         }
-        if VHOLD.load(Ordering::SeqCst) {
+        if VHOLD.load(Ordering::SeqCst) || VBUSY.load(Ordering::SeqCst) > 0 {
             continue;
         }
         let now = VOFF_NS.load(Ordering::SeqCst);
